@@ -48,6 +48,8 @@ OPS = {
     8: ('valid+mutate', ['<tb/>'], ()),                      # every default of tb is used
     9: ('valid', ['<tb>', 'zz 9', 'kn 6', '</tb>', '<ta/>'], ()),
     10: ('conversion', ['<tb>', 'zz x', '</tb>'], ()),
+    11: ('matching', ['<ta ki>', '</ta>'], ()),             # 'ki' is the name of a key of the container
+    12: ('valid', ['<ta m1>', '</ta>', '<ta m2/>', '<tb sb2/>'], ()),
 }
 
 
